@@ -5,7 +5,7 @@ From Coq Require Import List ZArith.
 Import ListNotations.
 From Gen Require Import SelGen.
 From Model Require Import Key Sel GFI GFIEdit Derived.
-From Proofs Require Import GFIBase GFIRef GFIWf GFIConsistent GFIProject GFISim GFIGen GFIEditProofs GFIEditChoices GFIDerived GFICombinators.
+From Proofs Require Import GFIBase GFIRef GFIWf GFIConsistent GFIProject GFISim GFIGen GFIEditProofs GFIEditChoices GFIDerived GFIDerived2 GFICombinators.
 Open Scope Z_scope.
 
 Theorem C12_scan_trace_is_the_loop : forall n g t,
@@ -36,3 +36,18 @@ Theorem C12_reduce_is_its_loop : forall f t,
                           reduce_chain f xs 0 init ts (t_retval t) /\ t_score t = zsum (map t_score ts).
 Proof. exact reduce_is_loop. Qed.
 Print Assumptions C12_reduce_is_its_loop.
+
+Theorem C12_iterate_is_its_loop : forall n f t,
+  wft (g_iterate n f) t ->
+  exists init rest ts xf l, t_args t = init :: rest /\ length ts = n /\ iter_chain f init ts xf /\
+    stack_vals (map t_retval ts) = VA l /\ t_retval t = VA (init :: l) /\ t_score t = zsum (map t_score ts).
+Proof. exact iterate_is_loop. Qed.
+Print Assumptions C12_iterate_is_its_loop.
+
+Theorem C12_accumulate_is_its_loop : forall f t,
+  wft (g_accumulate f) t ->
+  exists init xs rest ts xf l, t_args t = init :: xs :: rest /\ leading_len xs = Some (length ts) /\
+    reduce_chain f xs 0 init ts xf /\ stack_vals (map t_retval ts) = VA l /\ t_retval t = VA (init :: l) /\
+    t_score t = zsum (map t_score ts).
+Proof. exact accumulate_is_loop. Qed.
+Print Assumptions C12_accumulate_is_its_loop.
